@@ -1,6 +1,7 @@
 package c08
 
 import (
+	"errors"
 	"fmt"
 	"regexp"
 	"sort"
@@ -21,6 +22,23 @@ var (
 
 // normErr makes an error text stable (no scratch paths, timestamps, random temp suffixes); the texts by which the
 // crypto layer says "this blob does not decrypt" are one class.
+// errClass names an error in a signature: the text of the innermost wrapped error (normalised), so that context added around
+// it by Acra ("failed to write ...: %w") does not change signatures or known-finding matches.
+func errClass(err error) string {
+	if err == nil {
+		return ""
+	}
+	root := err
+	for {
+		u := errors.Unwrap(root)
+		if u == nil {
+			break
+		}
+		root = u
+	}
+	return normErr(root.Error())
+}
+
 func normErr(s string) string {
 	for _, m := range []string{"failed to get output size", "failed to unprotect data", "empty message for Secure Cell", "failed to protect data"} {
 		if strings.Contains(s, m) {
@@ -204,6 +222,49 @@ func (m *monitor) check(c *caseCtx, phase string, d *ksdump.Dump, w *world) stri
 	}
 	m.r.Count("outcome_target_"+outcome, 1)
 	return outcome
+}
+
+// checkSameHandleAgainstStorage: clause (2) for the process that lives on after an error return. "Still its old self or completely
+// the new one" is a statement about the KEY, not about a cache: a value the handle hands out for a targeted entry must be the
+// value from before the operation or the value the storage holds now (what a fresh handle reads). A well-formed value that is
+// neither — a new key kept in the handle's cache although it never reached the storage — is stored nowhere: data protected with it
+// is lost at the next restart, when the handle silently goes back to the old key.
+func (m *monitor) checkSameHandleAgainstStorage(c *caseCtx, phase string, dSame, dFresh *ksdump.Dump, w *world) {
+	r := m.r
+	v2 := c.j.kind != "v1"
+	diag := func() map[string]interface{} {
+		kinds, files := leftovers(c, w)
+		return map[string]interface{}{"same_handle_after_fault": dSame.Render(), "fresh_handle_after_fault": dFresh.Render(), "leftover_kinds": kinds, "leftover_files": files}
+	}
+	for _, g := range c.j.op.groups {
+		for _, n := range g.names(v2) {
+			eS, eP, eF := ent(dSame, n), ent(c.ff.pre, n), ent(dFresh, n)
+			if !eS.OK() {
+				continue // unreadable / absent / panic through the same handle: judged by the other clauses
+			}
+			r.Count("same_handle_target_entries_compared_with_storage", 1)
+			if same(eS, eP) || same(eS, eF) {
+				continue
+			}
+			nowhere := 0
+			for _, v := range eS.Vals {
+				if !(eP.OK() && has(eP.Vals, v)) && !(eF.OK() && has(eF.Vals, v)) {
+					nowhere++
+				}
+			}
+			if nowhere == 0 && isAggregate(g, n) {
+				continue // a list: every element is an old or a stored value (files arrive one by one)
+			}
+			if nowhere == 0 && len(eS.Vals) > 0 {
+				continue
+			}
+			stored := "storage-holds-" + entryClass(eF)
+			if eF.OK() && same(eF, eP) {
+				stored = "storage-holds-the-old-value"
+			}
+			m.violate(c, phase, fmt.Sprintf("target-value-stored-nowhere(%s:%s)", n, stored), diag())
+		}
+	}
 }
 
 func isAggregate(g keyGroup, n string) bool {
@@ -398,7 +459,7 @@ func (m *monitor) checkRetry(c *caseCtx, phase string, ro ksrig.FaultOutcome, w 
 			return false
 		}
 		kinds, files := leftovers(c, w)
-		m.violate(c, phase, fmt.Sprintf("write-blocked(%s):leftover=%s", normErr(ro.Err.Error()), strings.Join(kinds, "+")),
+		m.violate(c, phase, fmt.Sprintf("write-blocked(%s):leftover=%s", errClass(ro.Err), strings.Join(kinds, "+")),
 			map[string]interface{}{"retry_error": ro.Err.Error(), "leftover_files": files})
 		return false
 	}
